@@ -299,6 +299,64 @@ func linterCheck(c *Check, id string) {
 	}
 	c.Floor("linter/comparer-coverage", 6)
 	memoisedMergeUnconditional(c, r)
+	// a constructor of an old type must be found among the constructors of the *same* type in the new schema: the table
+	// the removed-constructor test looks into is created inside the loop over old types and filled from
+	// newTypes[<that type>] only (a table over all new constructors also finds one that was moved to another type)
+	if ir := r.ir("internal/tlcodegen.CheckBackwardCompatibility"); ir != nil {
+		ok, detail := false, "loop over the old types with a per-type constructor table not found"
+		for _, n := range ir.Body {
+			lp, isL := n.(*LoopN)
+			if !isL || lp.Kind != "range" {
+				continue
+			}
+			elem := lp.Over + "[*]"
+			perType := map[string]bool{} // locals holding <some map>[<this type>]
+			newOfType, table := "", ""
+			filled, looked := false, false
+			for _, st := range lp.Body {
+				switch st := st.(type) {
+				case *AssignN:
+					if len(st.LHS) == 1 && len(st.RHS) == 1 {
+						if regexp.MustCompile(`^L\d+:\w+\[` + regexp.QuoteMeta(elem) + `\]$`).MatchString(st.RHS[0]) {
+							perType[st.LHS[0]] = true
+						}
+						if strings.HasPrefix(st.RHS[0], "make(T:map[") && strings.Contains(st.RHS[0], "Combinator") {
+							table = st.LHS[0]
+						}
+					}
+				case *LoopN:
+					if table == "" {
+						continue
+					}
+					for _, b := range st.Body {
+						if as, isA := b.(*AssignN); isA && len(as.LHS) == 1 && strings.HasPrefix(as.LHS[0], table+"[") && perType[st.Over] {
+							filled, newOfType = true, st.Over
+						}
+						if as, isA := b.(*AssignN); isA && len(as.RHS) == 1 && strings.HasPrefix(as.RHS[0], table+"[") && perType[st.Over] && st.Over != newOfType {
+							looked = true
+						}
+					}
+				}
+			}
+			if table != "" {
+				ok = filled && looked
+				detail = fmt.Sprintf("table %s created per old type; filled from the new constructors of the same type (%s): %v; removed-constructor test looks into it: %v", table, newOfType, filled, looked)
+			}
+		}
+		c.Ob("linter/removed-constructor-looked-up-in-its-own-type", "CheckBackwardCompatibility", ok, r.pos(ir.Info.Decl.Pos()), detail)
+	}
+	// the boxed encoding of a value starts with its constructor's tag and a request with its function's tag: a pair of
+	// schemas can only be wire compatible if the comparison looks at the tags of matched combinators
+	if id == "C28" { // soundness only: a tag change is not among the edits C30 lists
+		reads := 0
+		for _, fn := range []string{"internal/tlcodegen.CheckBackwardCompatibility", "internal/tlcodegen.checkCombinatorsBackwardCompatibility"} {
+			if ir := r.ir(fn); ir != nil {
+				t := irText(ir)
+				reads += strings.Count(t, ".Crc32()") + strings.Count(t, ".Construct.ID")
+			}
+		}
+		c.Ob("linter/tags-compared", "CheckBackwardCompatibility", reads > 0, "", fmt.Sprintf("reads of a combinator's tag (Crc32() / Construct.ID) in the comparison: %d", reads))
+	}
 }
 
 // memoisedMergeUnconditional: in the memoised traversals of the bit-usage analysis (closures that test a visited map
